@@ -24,7 +24,7 @@ def slice_items(vm, m, v):
 def slice_refs(vm, m, v):
     """list of references to the elements"""
     if isinstance(v, SliceRef):
-        return [Ref(v.cell, v.path + (('i', v.start + k),)) for k in range(v.count)]
+        return [v.elem_ref(k) for k in range(v.count)]
     if isinstance(v, Ref):
         s = vm.read_at(m, v.cell, v.path)
         if isinstance(s, Seq): return [Ref(v.cell, v.path + (('i', k),)) for k in range(len(s.items))]
@@ -77,6 +77,15 @@ def dispatch(vm, m, callee, args):
         if n == 'to_bits' or n == 'from_bits': raise Unmodelled(c)
         if n == 'signum': raise Unmodelled(c)
         raise Unmodelled('f64 method ' + n)
+    mm = re.match(r"^<&?(?:'\w+ )?f64 as (?:std::ops::)?(Add|Sub|Mul|Div)(?:<&?(?:'\w+ )?f64>)?>::(add|sub|mul|div)$", c)
+    if mm:
+        a, b = deref_val(vm, m, args[0]), deref_val(vm, m, args[1])
+        return ret(m, vm.binop(mm.group(1), a, b))
+    mm = re.match(r"^<f64 as (?:std::ops::)?(Add|Sub|Mul|Div)Assign(?:<&?(?:'\w+ )?f64>)?>::\w+$", c)
+    if mm:
+        r = args[0]; a = vm.read_at(m, r.cell, r.path); b = deref_val(vm, m, args[1])
+        vm.write_at(m, r.cell, list(r.path), vm.binop(mm.group(1), a, b)); return ret(m, UNIT)
+    if re.match(r"^<&?f64 as (?:std::ops::)?Neg>::neg$", c): return ret(m, A.neg(deref_val(vm, m, args[0])))
     # ---- integer helpers --------------------------------------------------------------------
     mm = re.match(r'^<(u64|usize|i64|u32|i32|u8) as Ord>::(max|min)$', c)
     if mm:
@@ -292,7 +301,9 @@ def _vec(vm, m, c, args):
         n = mm.group(1)
         if n == 'len': return ret(m, as_slice(vm, m, args[0]).count)
         if n == 'is_empty': return ret(m, as_slice(vm, m, args[0]).count == 0)
-        if n in ('iter', 'iter_mut'): return ret(m, Seq(slice_refs(vm, m, args[0])))
+        if n in ('iter', 'iter_mut'):
+            from .vm import Iter
+            return ret(m, Iter(slice_refs(vm, m, args[0])))
         if n == 'contains':
             items = slice_items(vm, m, args[0]); x = deref_val(vm, m, args[1])
             items = [deref_val(vm, m, i) for i in items]
